@@ -284,3 +284,27 @@ Proof.
   intros H Hp. eexists. split. eapply short_line_parses; eauto.
   rewrite (short_item_assembles l name w v H), (shorthand_passes name w H l v). destruct (int_fits w v); reflexivity.
 Qed.
+
+(* ---- from the TEXT of the line, in any separator style (C13_line), to the bytes ------------------------------------------------ *)
+From BB Require Import Proofs.LexSep.
+Lemma unchars_chars_map (l : list string) : map unchars (map chars l) = l.
+Proof.
+  induction l as [|s r IH]; simpl; [reflexivity|]. rewrite IH. f_equal. unfold unchars, chars. apply string_of_list_ascii_of_string.
+Qed.
+Theorem r_text_end_to_end (sty : style) l name rd rs1 rs2 a w :
+  let ts := map chars [name; rd; rs1; rs2] in
+  Forall tok_ok ts -> not_special ts -> style_ok sty ts ->
+  In name r3_names -> In name base_mnemonics -> String.eqb rd "=" = false -> arith_of_string rs2 = Some a ->
+  encode name [AStr rd; AStr rs1; AStr rs2] [] = Ok w ->
+  lex_tokens (unchars (render sty ts)) = Some [name; rd; rs1; rs2] /\
+  exists it ops i,
+    parse_item l [name; rd; rs1; rs2] = FOk it /\
+    assemble_items [(l, it)] [] [] false = Done {| r_chunks := [(l, CBytes (le_bytes 4 w))]; r_consts := []; r_labels := [] |} /\
+    (0 <= w < 2 ^ 32)%Z /\
+    operands32 name [AStr rd; AStr rs1; AStr rs2] [] = Some ops /\ denote32 name ops = Some i /\ decode32 w = Some i.
+Proof.
+  intros ts Ht Hs Hsty Hn Hb Hrd Ha He. split.
+  - unfold lex_tokens. unfold chars at 1, unchars at 1. rewrite list_ascii_of_string_of_list_ascii.
+    rewrite (lex_render sty ts Ht Hs Hsty). unfold ts. rewrite unchars_chars_map. reflexivity.
+  - eapply r_line_end_to_end; eauto.
+Qed.
